@@ -1211,6 +1211,8 @@ class Emitter:
         m = re.match(r'llvm\.bswap\.i(\d+)', nm)
         if m:
             o.append('  %s = __builtin_bswap%s(%s);' % (d, m.group(1), v(0))); return
+        if nm.startswith('llvm.expect'):
+            o.append('  %s = %s;' % (d, v(0))); return
         if nm == 'llvm.trap':
             o.append('  VERIF_UB(0, "UB: llvm.trap"); __CPROVER_assume(0);'); return
         if nm.startswith('llvm.stacksave'):
@@ -1447,8 +1449,8 @@ uint64_t g_verif_alloc_total;      /* sum of requested sizes */
 uint64_t g_verif_alloc_count;
 #ifdef __CPROVER__
 uint64_t verif_req[VERIF_OBJ_TABLE];   /* requested size + 1, 0 = not a modelled heap chunk */
-#define VERIF_CHK(p, w) do { uint64_t r_ = verif_req[__CPROVER_POINTER_OBJECT(p)]; \
-    if (r_ != 0) VERIF_UB((uint64_t)__CPROVER_POINTER_OFFSET(p) + (uint64_t)(w) <= r_ - 1, "UB: heap access beyond the requested allocation size"); } while (0)
+#define VERIF_CHK(p, w) { uint64_t r_ = verif_req[__CPROVER_POINTER_OBJECT(p)]; \
+    if (r_ != 0) VERIF_UB((uint64_t)__CPROVER_POINTER_OFFSET(p) + (uint64_t)(w) <= r_ - 1, "UB: heap access beyond the requested allocation size"); }
 #else
 #define VERIF_CHK(p, w) ((void)0)
 #endif
